@@ -189,6 +189,21 @@ func ShapeGrammar() *rapid.Generator[*gr.Grammar] {
 			g.Lex = append(g.Lex, gr.LexDef{Name: name, Kind: gr.DReg, Pat: p})
 			prev = name
 		}
+		// recursive regular definitions (the documentation says they may not be
+		// used; gocc must still terminate on them)
+		switch rapid.IntRange(0, 7).Draw(t, "recursiveRegdef") {
+		case 0:
+			g.Lex = append(g.Lex, gr.LexDef{Name: "_rec", Kind: gr.DReg, Pat: gr.Alt(gr.Seq(gr.Ref("_rec"), leaf()), leaf())})
+			prev = "_rec"
+		case 1:
+			g.Lex = append(g.Lex, gr.LexDef{Name: "_rec", Kind: gr.DReg, Pat: gr.Alt(gr.Seq(leaf(), gr.Ref("_rec")), leaf())})
+			prev = "_rec"
+		case 2:
+			g.Lex = append(g.Lex,
+				gr.LexDef{Name: "_ma", Kind: gr.DReg, Pat: gr.Alt(gr.Seq(gr.Ref("_mb"), leaf()), leaf())},
+				gr.LexDef{Name: "_mb", Kind: gr.DReg, Pat: gr.Alt(gr.Seq(gr.Ref("_ma"), leaf()), leaf())})
+			prev = "_ma"
+		}
 		nTok := rapid.IntRange(1, 3).Draw(t, "shapeToks")
 		for i := 0; i < nTok; i++ {
 			p := shape(rapid.IntRange(1, 4).Draw(t, "shapeDepth"))
@@ -245,3 +260,16 @@ func MutateSource(t *rapid.T, src string) string {
 	s := string(b)
 	return strings.ReplaceAll(s, "<<", "< <")
 }
+
+// HostileLit returns the i-th hostile literal (cyclically) as a symbol, so that
+// a corpus can cover every one of them.
+func HostileLit(i int) gr.Sym {
+	h := hostileLits[i%len(hostileLits)]
+	q := h.q
+	if q == 2 {
+		q = i % 2
+	}
+	return gr.Sym{Kind: gr.SLit, Name: h.s, Quote: q}
+}
+
+func NumHostileLits() int { return len(hostileLits) }
